@@ -12,12 +12,29 @@ from .report import Check, VERIF
 ALL = ['C%02d' % i for i in range(1, 21)]
 
 
+class _Unconfirmed(AnalysisError):
+    pass
+
+
 def run_one(pid, tier, repo, quiet=False, out_dir=None):
     ck = Check(pid, tier, repo, out_dir=out_dir, quiet=quiet)
+    from . import interp as _interp
+    _interp.GAP_EVENTS.clear()
     try:
         mod = importlib.import_module('vf.props.' + pid.lower())
         prog = Program(repo)
         mod.run(ck, prog, tier)
+        expected = set(getattr(mod, 'EXPECTED_GAPS', ()))
+        gaps = sorted({g for g in _interp.GAP_EVENTS if (g[0], g[1]) not in expected})
+        ck.extra['modelling_gaps'] = ['%s %s at %s' % g for g in gaps][:20]
+        if gaps and ck.violations:
+            # a mismatch downstream of a construct the interpreter does not model is not evidence
+            rules = sorted({v['rule'] for v in ck.violations})
+            raise _Unconfirmed(
+                '%d rule(s) did not hold on the abstract values (%s), but the analysis met '
+                'constructs it does not model (%s): values downstream of those are '
+                'over-approximations, so the mismatch is not evidence of a defect; cannot conclude'
+                % (len(rules), ', '.join(rules[:6]), '; '.join('%s %s at %s' % g for g in gaps[:4])))
         if tier == 'thorough' and not os.environ.get('VERIF_NO_AUDIT'):
             # mutation-adequacy audit: the property's self-test variants applied to scratch copies
             # of the current tree (recorded in the evidence; never changes the verdict)
@@ -33,7 +50,20 @@ def run_one(pid, tier, repo, quiet=False, out_dir=None):
             except Exception as exc:  # the audit is auxiliary
                 ck.extra['mutation_audit'] = {'error': '%s: %s' % (type(exc).__name__, exc)}
         return ck.finish()
+    except _Unconfirmed as exc:
+        print('ANALYSIS-ERROR property=%s %s' % (pid, exc))
+        _error_evidence(ck, str(exc))
+        return 2
     except AnalysisError as exc:
+        gaps = sorted({g for g in _interp.GAP_EVENTS
+                       if (g[0], g[1]) not in set(getattr(sys.modules.get(
+                           'vf.props.' + pid.lower()), 'EXPECTED_GAPS', ()))})
+        if ck.violations and gaps:
+            print('ANALYSIS-ERROR property=%s %s (and %d unconfirmed mismatch(es) downstream of '
+                  'unmodelled constructs: %s)' % (pid, exc, len(ck.violations),
+                                                  '; '.join('%s %s at %s' % g for g in gaps[:3])))
+            _error_evidence(ck, str(exc))
+            return 2
         if ck.violations:
             # violations already established stay valid; the analyser merely could not finish the
             # remaining rules (often because of the very construct that was reported)
